@@ -254,7 +254,9 @@ def install_loop_notes(ctx):
 
         def nested_sampling_loop(self, _orig=orig):
             ctx.nb.note("loop_enter", iteration=int(self.iteration), finalised=bool(self.finalised))
-            return _orig(self)
+            out = _orig(self)
+            ctx.nb.note("loop_exit", iteration=int(self.iteration), finalised=bool(self.finalised))
+            return out
 
         cls.nested_sampling_loop = nested_sampling_loop
 
